@@ -240,6 +240,15 @@ class ElementList(MutableSequence):
         :param child: an instance of an :class:`Element <hl7apy.core.Element>` subclass
         """
         if self._can_add_child(child):
+            if any(c is child for c in self.list):
+                # already a child of this element: it moves to the requested position
+                if self.list.index(child) < index:
+                    index -= 1
+                self.list.remove(child)
+                siblings = self.indexes[child.name]
+                if by_name_index > siblings.index(child):
+                    by_name_index -= 1
+                siblings.remove(child)
             try:
                 if by_name_index == -1:
                     self.indexes[child.name].append(child)
